@@ -153,7 +153,7 @@ def LnAns.str : LnAns → String
 /-- One recorded backend call (the C02 ledger). -/
 structure LnCall where
   kind : String
-  hash : Nat
+  hash : Int
   msat : UInt64
   maxFee : UInt64
   ans : String
